@@ -194,6 +194,9 @@ pub enum Mutation {
     Ladder { k: u32, which: u8 },
     /// two lying length fields in two different files: the index header's and the main header's
     Cross { shx_len: i32, shp_len: i32 },
+    /// the unmutated .shp / .shx read through the complete Reader next to an attribute table whose header declares
+    /// this many rows (it holds as many as the .shp has records, at most 3)
+    DbfRows(u32),
 }
 
 #[derive(Clone, Debug)]
@@ -350,6 +353,10 @@ pub fn inputs(tier: Tier, bs: &[Base]) -> Vec<Input> {
         for k in 0..=kmax {
             v.push(Input { base: bi, on_shp: true, m: Mutation::Ladder { k, which: 10 } });
         }
+        // the complete Reader next to an attribute table whose header lies about its row count
+        for declared in [0u32, 1, 2, 4, 1 << 10, 1 << 16, 1 << 21, 1 << 24, 1 << 28, u32::MAX] {
+            v.push(Input { base: bi, on_shp: true, m: Mutation::DbfRows(declared) });
+        }
         // runs of 2^k zeroed index entries (11)
         for k in 0..=tier.pick(14, 16) {
             v.push(Input { base: bi, on_shp: false, m: Mutation::Ladder { k, which: 11 } });
@@ -413,6 +420,7 @@ pub fn materialise(bs: &[Base], inp: &Input) -> Option<(Vec<u8>, Vec<u8>)> {
                 bytes.extend(&bs[*other].shp[4..]);
             }
             Mutation::Cross { .. } => unreachable!(),
+            Mutation::DbfRows(_) => {}
             Mutation::Ladder { k, which } => {
                 let n: i64 = 1i64 << k;
                 if *which == 11 {
@@ -781,7 +789,50 @@ fn header_ty(shp: &[u8]) -> Ty {
 
 pub fn run_input(prop: Prop, bs: &[Base], inp: &Input) -> Option<CaseResult> {
     let (shp, shx) = materialise(bs, inp)?;
+    if let Mutation::DbfRows(declared) = &inp.m {
+        return Some(drive_complete(prop, &shp, &shx, *declared));
+    }
     Some(drive(prop, &shp, &shx, header_ty(&shp)))
+}
+
+/// The complete Reader over the files and an attribute table of three real rows whose header declares `declared`.
+pub fn drive_complete(prop: Prop, shp: &[u8], shx: &[u8], declared: u32) -> CaseResult {
+    let dbf = {
+        let d = Dev::quiet(vec![]);
+        {
+            let mut tw = crate::table::table_writer(d.clone());
+            for i in 0..3 {
+                tw.write_record(&crate::table::good_row(i)).expect("row");
+            }
+        }
+        let mut b = d.data();
+        b[4..8].copy_from_slice(&declared.to_le_bytes());
+        b
+    };
+    let total = shp.len() + shx.len() + dbf.len();
+    let cap = total + 16;
+    let mut m = Meter { budget: 64 * total + 64 * 1024, prop, findings: vec![], calls: 0, out: Fnv::new() };
+    for with_index in [true, false] {
+        let open = |m: &mut Meter| -> Option<shapefile::Reader<Dev, Dev>> {
+            let sr = m.call("open", || if with_index { ShapeReader::with_shx(Dev::quiet(shp.to_vec()), Dev::quiet(shx.to_vec())) } else { ShapeReader::new(Dev::quiet(shp.to_vec())) })?.ok()?;
+            let dr = m.call("dbase::Reader::new", || shapefile::dbase::Reader::new(Dev::quiet(dbf.clone())))?.ok()?;
+            Some(shapefile::Reader::new(sr, dr))
+        };
+        let tag = if with_index { "+shx" } else { "" };
+        if let Some(mut r) = open(&mut m) {
+            let n = m.call(&format!("Reader::read{}", tag), || r.read().map(|v| v.len()));
+            m.out.u64(match n {
+                Some(Ok(n)) => n as u64,
+                _ => u64::MAX,
+            });
+        }
+        if let Some(mut r) = open(&mut m) {
+            if let Some(mut it) = m.call("iter_shapes_and_records()", || r.iter_shapes_and_records()) {
+                m.drain(&format!("Reader::iter_shapes_and_records{}", tag), cap, &mut it, |_| {});
+            }
+        }
+    }
+    CaseResult { findings: m.findings, lib_calls: m.calls, outcome: m.out.finish() }
 }
 
 // ---------------------------------------------------------------------
